@@ -188,9 +188,69 @@ def baseline_frames(sc, seed):
         d.net.close()
 
 
+def early_one(sc, seed=0, keep=False):
+    """broadcasts only: one frame of the first transfer is lost; the originator - which has nothing to wait for - starts the
+    next broadcast 'early' seconds after it finished the first one, i.e. possibly before the receivers have given the damaged
+    session up: the new transfer is accepted and delivered intact, the damaged one is delivered exactly or not at all"""
+    d = Driver(sc, (), seed)
+    net = d.net
+    dll = net.dll
+    w = net.w
+    m = sc['msgs'][0]
+    probs = []
+    try:
+        net.submit(m, seed)
+        A = net.stacks[0]
+        t_end = w.now + 3.0
+        while w.now < t_end and not net.is_idle(A):
+            w.run_for(STEP)
+        w.run_for(sc['early'])
+        net.bus.drop = set()
+        m2 = dict(m)
+        m2['pat'] = (m.get('pat', 0) + 1) % 3
+        m2['size'] = m['size'] + 1 if m['size'] % 7 else m['size']
+        n0 = len(net.rec.items)
+        sent0 = len(net.sent)
+        r = net.submit(m2, seed + 1)
+        w.run_for(1.5 + npackets(dll, m2['size']) * 0.06 + (3.2 if dll == 'j1939-22' else 1.4))
+        if r is not True:
+            probs.append("follow-up broadcast refused (send_pgn returned %r) although the originator had finished the first one" % (r,))
+        else:
+            jd = net.judge_deliveries()
+            bad = [p for p in jd if 'unexpected []' not in p]
+            if bad:
+                probs.append("receiver got a payload that is not one of those sent: " + bad[0])
+            first, items0 = net.sent[:sent0], net.rec.items[:n0]
+            net.sent, net.rec.items = net.sent[sent0:], net.rec.items[n0:]
+            jd = net.judge_deliveries()
+            if jd:
+                probs.append("follow-up broadcast %.1f s after the damaged one not delivered intact: %s" % (sc['early'], jd[0]))
+            net.sent, net.rec.items = first + net.sent, items0 + net.rec.items
+        probs += net.job_problems()
+        if not all(net.is_idle(st) for st in net.stacks):
+            probs += net.idle_problems()
+        return net.chooser.points, probs, (net.outcome(), ()), net.trace() if keep else None
+    finally:
+        net.close()
+
+
 def worker(item):
     shape, bound, seed = item
     acc = Acc()
+    if shape.get('early_family'):
+        shape = dict(shape)
+        shape.pop('early_family')
+        n = baseline_frames(shape, seed)
+        for k in range(n):
+            for early in (0.05, 0.3, 0.7):
+                sc = dict(shape, drop=[k], early=early)
+                points, probs, outcome, _ = early_one(sc, seed)
+                acc.case((repr(sorted(sc.items())), ()), nontrivial=True, outcome=outcome)
+                if probs:
+                    acc.violation(csig(probs), sc, (), probs[:4])
+        acc.add('fault_points', n)
+        acc.sample({'shape': shape, 'early_followup_s': [0.05, 0.3, 0.7]})
+        return acc
     n = baseline_frames(shape, seed)
     faults = [('none', None, None)]
     faults += [('drop', k, None) for k in range(n)]
@@ -273,12 +333,28 @@ def run(tier, seed):
             sh['lat_grid'] = [1e-3, 0.2e-3, 5e-3]
             sh['wake_grid'] = [50e-6, 5e-3]
         items.append((sh, b, seed))
+    # broadcasts: the next broadcast 0.05 / 0.3 / 0.7 s after the damaged one (before the receivers' time-out)
+    for dll in ('j1939-21', 'j1939-22'):
+        seg = 7 if dll == 'j1939-21' else 60
+        for npk in (2, 3, 5):
+            for kind, dst in (('bam2', 0x42), ('bam1', 255)):
+                items.append(({'dll': dll, 'stacks': two(1, 1), 'base_lat': 1e-3, 'early_family': True,
+                               'msgs': [msg(0x10, kind, dst, seg * npk - 1)]}, 0, seed))
     items.sort(key=lambda it: -it[0]['msgs'][0]['size'])
     return run_check(PROP, tier, seed, 'fault_enumeration', items, worker, RULE, ASSUME,
                      bounds={'deviation_bound': bound, 'packets': '2..12', 'faults': 'every lost frame, every silence point of either peer'})
 
 
 def replay(rec):
+    if rec['scenario'].get('early') is not None:
+        points, probs, outcome, trace = early_one(rec['scenario'], rec.get('seed', 0), keep=True)
+        print("\n".join(trace))
+        if probs:
+            print("REPRODUCED: " + "; ".join(probs[:4]))
+            print("VIOLATION property=%s replay=(this file)" % PROP)
+            return 1
+        print("no violation on this tree")
+        return 0
     points, probs, outcome, trace = run_one(rec['scenario'], [tuple(c) for c in rec['choices']],
                                             rec.get('seed', 0), keep=True)
     print("\n".join(trace))
